@@ -10,6 +10,7 @@
    exhibiting the input on which the same code without the guard panics (the defects repaired on
    the tree, kept as witnesses in corpus/C16). *)
 From Verif Require Import Lib.Base Model.C16_Paths Model.C16_Sessions Proofs.C16 Proofs.C16_Bytes Proofs.C16_Config Proofs.C16_Duties Proofs.C16_Sessions.
+From Verif Require Import Model.C16_Bids Proofs.C16_Bids.
 
 (* =========================================================================================== *)
 (* Path 1 — proposeBlock: from the proposal response to the unblinding providers.               *)
@@ -518,3 +519,68 @@ Example C16_session_example :
   head_session_now [BAErr; BANilData] [EvHead; EvHead] = [Ok None; Panic] /\
   dynamic_session 3 [FOther; FData [97]] (Some [FNotFound]) = [Ok [[]]; Ok [[97]]; Ok [[97]]].
 Proof. vm_compute. repeat split; reflexivity. Qed.
+
+(* =========================================================================================== *)
+(* Path 2 as a session — one builder-bid strategy (strategies/builderbid/best), any number of
+   auctions one after the other; every relay of every auction with any client, any 48 bytes as its
+   public key (in the configuration or in its URL: the key it signs with, somebody else's, a key
+   nobody signs with, or no key at all), any minimum value and any answer (failure, no answer, no
+   bid, an empty bid, a complete bid with any value, fee recipient, timestamp and any 96 bytes as
+   signature).  The strategy remembers the keys it has deserialized from auction to auction.      *)
+
+(* Every auction is carried out (one result each), none panics, and each does exactly what it would
+   do on a fresh strategy: what is remembered never changes an outcome. *)
+Theorem C16_bids_session_no_panic : forall s,
+  bid_session_now s = map auction_alone s /\
+  length (bid_session_now s) = length s /\
+  forall o, In o (bid_session_now s) -> exists r, o = Ok r.
+Proof. exact bid_session_now_spec. Qed.
+Print Assumptions C16_bids_session_no_panic.
+
+(* The fallback, auction by auction: every usable relay is asked; the relays with a participation
+   are exactly those whose offer counts by the auction's own data ([offer]: a complete bid, not
+   below the relay's minimum, fee recipient and timestamp in order and, if the relay has a key, a
+   signature that verifies under it); the winning score is the best offer; every winner made an
+   offer and there is a winner whenever there is an offer.  A relay whose key is no key makes no
+   offer: it is ignored, and nothing else about the auction changes. *)
+Theorem C16_bids_falls_back : forall rs,
+  exists r, auction_alone rs = Ok r /\
+  ar_all r = good_relays (map br_client rs) /\
+  ar_participants r = map of_id (offers rs) /\
+  ar_score r = best_value (offers rs) /\
+  (forall w, In w (ar_winners r) -> In w (map of_id (offers rs))) /\
+  (offers rs <> [] -> ar_winners r <> []).
+Proof. intros rs. exists (result_of rs). split; [apply auction_alone_spec | apply auction_falls_back]. Qed.
+Print Assumptions C16_bids_falls_back.
+
+Theorem C16_bids_invalid_key_is_ignored : forall r n,
+  effective_key r = Some (KInvalid n) -> offer r = None.
+Proof. exact invalid_key_no_offer. Qed.
+Print Assumptions C16_bids_invalid_key_is_ignored.
+
+(* The guard that matters: the error of BLSPublicKeyFromBytes is looked at BEFORE the result is
+   remembered.  With the two statements the other way round a relay whose key is no key is turned
+   down once as before -- a single auction with a single relay never panics, which is all a test of
+   one bid can see -- and its second bid, in a later auction, finds the nil key
+   with a nil error and panics in the relay's goroutine; the code as it is ignores the relay every
+   time. *)
+Theorem C16_bids_error_before_remembering_necessary :
+  (forall g r, ~ In Panic (bid_session g [] [[r]])) /\
+  forall n id v h, v <> 0 ->
+    let bad := {| br_client := FClient id true true; br_cfg_key := Some (KInvalid n); br_prov_key := None; br_min := 0;
+                  br_answer := BdBid v h false true (SigBy (id + 1)) |} in
+    let ignored := {| ar_all := [id]; ar_winners := []; ar_score := 0; ar_participants := [] |} in
+    bid_session false [] [[bad]; [bad]] = [Ok ignored; Panic] /\
+    bid_session_now [[bad]; [bad]] = [Ok ignored; Ok ignored].
+Proof. split; [exact single_relay_never_panics | exact unguarded_second_bid_panics]. Qed.
+Print Assumptions C16_bids_error_before_remembering_necessary.
+
+Example C16_bids_example :
+  let relay id key v sg := {| br_client := FClient id true true; br_cfg_key := key; br_prov_key := None; br_min := 0;
+                              br_answer := BdBid v v false true sg |} in
+  (* relay 0 has a key that is no key, relay 1 signs with its own key, relay 2 with somebody else's:
+     relay 1 wins both auctions although relay 0 offers more; without the guard the second auction panics *)
+  let a := [relay 0 (Some (KInvalid 0)) 90 (SigBy 1); relay 1 (Some (KValid 2)) 40 (SigBy 2); relay 2 (Some (KValid 3)) 50 (SigBy 9)] in
+  let won := {| ar_all := [0; 1; 2]; ar_winners := [1]; ar_score := 40; ar_participants := [1] |} in
+  bid_session_now [a; a] = [Ok won; Ok won] /\ bid_session false [] [a; a] = [Ok won; Panic].
+Proof. vm_compute. split; reflexivity. Qed.
